@@ -37,7 +37,11 @@ CLAIMED["C05"] = dict(cat="exploration", ref="DESIGN.md 3.5",
    text="Independence clause decided by simulation: 2-5 callers each own a CobaRandom(seed_i) and a script of calls; the seeded scheduler interleaves them call by call with an interference task (coba.random.seed and module-level draws, stdlib random, creation of other instances with equal/different seeds, pickling) and runs some callers inside simulated spawned processes with pristine module state; every caller's observed stream must equal the stream the same script produces solo. Contract clause: every value produced is checked against its documented contract, with seeds biased to the boundary states of the 30-bit LCG - input selection, reported as such.",
    note="The contract clause is NOT decided for all 2^30 states x all arguments: it is checked at the states these runs reach (listed in the evidence). One known finding (uniform == max for a 2^-20 wide range at offset 2^20) is listed in known_findings.json. PYTHONHASHSEED is fixed to 0, so a hash()-dependent seed derivation would not be noticed.",
    tech="deterministic simulation: seeded call-by-call interleaving of generator instances with interference steps and process-boundary virtualisation, differential oracle against the solo stream")
-PENDING = {k: "claimed in DESIGN.md; check under construction in this round (deterministic-simulation engine exists, driver not yet committed)" for k in ("C04",)}
+CLAIMED["C04"] = dict(cat="exploration", ref="DESIGN.md 3.4",
+   text="Read-history simulation on one environment object built through the public constructors (synthetic, lambda, class-based, supervised from sequences / CSV / LibSVM lines, result-based) and 0-5 built-in filters: seeded histories of full reads, partial reads whose close() is delivered immediately, by dropping the reference, after j later operations or never (the simulator owns the moment a suspended generator chain is cancelled), params look-ups, pickle round trips, materialize(), cache(), chunk(), save()/from_save() on a real zip file and forced gc; every read is compared with the first full read of a freshly built twin, params with the twin's, and a deep snapshot of the caller's inputs is compared before/after every operation.",
+   note="Trusted base: CPython reference counting for 'drop'; reward/feedback callables compared by their values on the interaction's actions; specs whose pristine first read raises are discarded (about a fifth); pickling that is refused (local functions without cloudpickle, a cache holding a live iterator) is counted, not flagged. Single-threaded engine: the injected fault is cancellation/abandonment and process-boundary transfer, not thread interleaving.",
+   tech="seeded operation-and-cancellation histories (abandoned readers with immediate/delayed/never-delivered close, pickle boundary), differential oracle against a pristine twin")
+PENDING = {k: "claimed in DESIGN.md; check under construction in this round (deterministic-simulation engine exists, driver not yet committed)" for k in ()}
 NA = {
  "C06": "SequentialCB is a single-threaded loop whose outputs are a pure function of (environment, learner, mode); no schedule, clock, fault or crash point occurs in the property.",
  "C09": "Ordering/selection filters are pure functions of (input sequence, parameters, seed); nothing for a simulator to schedule or fault.",
